@@ -231,11 +231,12 @@ def keyFor (tag : Option String) (fm : FieldMeta) (schemaKey : String) : String 
   | some k => k
   | none => (lookupD fm.tags "zog").getD schemaKey
 
-/-- `GetByField`'s key: the empty provider (nil input, empty map, `{}`) answers with the schema
-    key itself, ignoring every tag -/
+/-- `GetByField`'s key: the empty provider (nil input, empty map, `{}`) has no source tag of its
+    own — it answers with the `zog` tag, else the schema key (for `{}` through zjson the json tag is
+    therefore not used: part of known finding D17) -/
 def Prov.keyFor (p : Prov) (tag : Option String) (fm : FieldMeta) (schemaKey : String) : String :=
   match p with
-  | .empty => schemaKey
+  | .empty => Zog.Engine.keyFor none fm schemaKey
   | _ => Zog.Engine.keyFor tag fm schemaKey
 
 /-- is the pointer node's value absent? -/
